@@ -140,6 +140,9 @@ class AM:
         k = g[0]
         if k == "ge":
             return {"type": "ge", "params": {"v": g[1], "z": g[2]}}
+        if k == "pz":
+            # a parameterised guard whose params value is a bare (possibly falsy) number: ctx[v0] >= params
+            return {"type": "pz", "params": g[1]}
         if k == "raises":
             return "r%d" % g[1]
         if k == "missing":
@@ -247,6 +250,8 @@ class AM:
         k = g[0]
         if k == "ge":
             return "(GCtxGe %d (%d)%%Z)" % (g[1], g[2])
+        if k == "pz":
+            return "(GCtxGe 0 (%d)%%Z)" % g[1]
         if k == "raises":
             return "(GRaises %d)" % g[1]
         if k == "missing":
